@@ -234,6 +234,24 @@ def applyLimit (rows : List α) (limit offset : Option Value) : M (List α) := d
   let rows := match off with | some k => rows.drop k | none => rows
   pure (match lim with | some k => rows.take k | none => rows)
 
+/-- a member of a window partition read back: (order key, (row index, arguments)) -/
+def winItem (nOrd : Nat) : List Scope → Option (List Value × (Nat × List Value))
+  | [s] =>
+    match s.vals.drop nOrd with
+    | .int i :: args => some (s.vals.take nOrd, (i.toNat, args))
+    | _ => none
+  | _ => none
+
+/-- the values of a window function on one ordered partition -/
+def windowOfPartition (name : String) (sorted : List (Nat × List Value)) : R (List (Nat × Value)) :=
+  match name with
+  | "first_value" =>
+    let fv := match sorted with | (_, args) :: _ => args.headD .null | [] => .null
+    pure (sorted.map (fun (i, _) => (i, fv)))
+  | "row_number" =>
+    pure (sorted.foldl (fun (acc : List (Nat × Value) × Nat) (i, _) => (acc.1 ++ [(i, Value.int (acc.2 + 1))], acc.2 + 1)) ([], 0)).1
+  | _ => throw (.unsupported s!"window function {name}")
+
 /-- value of a window function for every row. Default frame with ORDER BY: from
     the partition start to the current row's last peer, so `first_value` is the
     first row of the ordered partition (documentation 4.2.8, 9.22). -/
@@ -242,28 +260,10 @@ def computeWindow (name : String) (rows : List (Nat × List Value × List Value 
   -- rows: (index, partition key, order key, args)
   let keyed := rows.map (fun (i, pk, ok, args) => (pk, [({ alias := toString i, cols := [], vals := ok ++ [Value.int i] ++ args } : Scope)]))
   let groups ← groupRowsBy keyed
-  let mut out : List (Nat × Value) := []
-  for (_, members) in groups do
-    let items : List (List Value × (Nat × List Value)) := members.filterMap (fun sc =>
-      match sc with
-      | [s] =>
-        let nOrd := descs.length
-        let ok := s.vals.take nOrd
-        let rest := s.vals.drop nOrd
-        match rest with
-        | .int i :: args => some (ok, (i.toNat, args))
-        | _ => none
-      | _ => none)
-    let sorted ← sortValuesBy items descs nulls
-    match name with
-    | "first_value" =>
-      let fv := match sorted with | (_, args) :: _ => args.headD .null | [] => .null
-      out := out ++ sorted.map (fun (i, _) => (i, fv))
-    | "row_number" =>
-      let (acc, _) := sorted.foldl (fun (acc : List (Nat × Value) × Nat) (i, _) => (acc.1 ++ [(i, Value.int (acc.2 + 1))], acc.2 + 1)) ([], 0)
-      out := out ++ acc
-    | _ => throw (.unsupported s!"window function {name}")
-  pure out
+  groups.foldlM (fun (out : List (Nat × Value)) g => do
+    let sorted ← sortValuesBy (g.2.filterMap (winItem descs.length)) descs nulls
+    let vals ← windowOfPartition name sorted
+    pure (out ++ vals)) []
 
 /-- accumulator of a DML statement's row loop -/
 structure DmlAcc where
